@@ -76,7 +76,13 @@ txt += ("\nLessons that were turned into input classes everywhere they apply: in
         "converged DMRG runs, long-range models also under TDVP conservation, parameters next to a special CONSTANT (1 +- 1e-6) instead of next to each other, strongly\n"
         "decaying long real steps on semi-definite spectra, zero edges (empty operator lists) in operator graphs, subtree OBJECTS reused at different depths of one tree,\n"
         "and very unbalanced bipartite problems (a few vertices against 70000; index pairs coinciding modulo 2^16; lattices of 300..540 sites and the molecular model at\n"
-        "L = 18 against structural references beyond the dense reach).\n\n"
+        "L = 18 against structural references beyond the dense reach);\n"
+        "from round 10 (11 of 19 missed at first): a real vector times ONE complex number with exactly related parts (1 - 1j: re = -im), operators with bonds of 64..130\n"
+        "in every combination of real and complex operands, complex blocks whose entries SQUARED sum to zero (S^x + i S^z: invisible to a 'norm' without the conjugate),\n"
+        "labels sitting exactly on the boundary of a narrower integer type with both signs (+-128, +-32768), classical / commuting-term models with few distinct local\n"
+        "eigenvalues, product BASIS states embedded in a complete manifold (one-hot tensors: the support of a tensor is not its sector), strongly truncating two-site TDVP\n"
+        "with long steps, dead-end nodes in operator graphs, callables that return one reused buffer, augmenting paths through more than 65536 vertices, and scalar\n"
+        "functions applied to near-cancelling differences (which exposed defect F13: norm() returned NaN there).\n\n"
         "Note on the repository suite: `test_krylov.py::test_eigh_krylov` fails in about 2 % of runs on the unchanged tree (12 of 600 seeded replays of its body, the\n"
         "same number before and after fix `3c1fa1a`): its tolerance on the second Ritz value is statistical. It is unrelated to any change made here.\n")
 d = open('/verif/DESIGN.md').read()
